@@ -34,9 +34,9 @@ func init() {
 		ID:    "C09",
 		Level: "exploration",
 		Race:  true,
-		Rule: "(a) runs of N=8..64 goroutines sending requests to one server (13 operations: path/query/header/array/body parameters, two path parameters in one segment, typed array parameters with declared defaults that most requests leave out, OR and AND security requirements, an operation whose two alternatives have different scopes and can be satisfied at once, two produces, a Responder result, a 204 and a HEAD operation, consumers that stamp their media type; handlers that normalise the slices they are handed in place), each request carrying a unique token in every position; the same registrations are served by two handler instances, middleware.NewContext over the untyped API and middleware.NewRoutableContext over a RoutableAPI whose operation handlers run RouteInfo, Authorize, BindValidRequest, handler, Respond (APIHandler), each request going to one of them; a quarter of the requests are driven accessor by accessor (RouteInfo, Authorize, BindAndValidate on the first — or, for half of them, BindValidRequest with a binder of its own, then Respond, on the second) and read back the stored principal, scopes and matched route; a fifth are served inside a wrapping middleware that asks RouteInfo first, serves the request value it was returned and reads the route again (and asks again) when the handler has returned; about a quarter of the requests must be refused (unacceptable Accept, non-admitted or malformed Content-Type, missing/ill-typed required query parameter, rejected credential, no credentials, a principal the authorizer refuses, unknown path, undeclared method), each judged by its expected status and by the operation handler not having run for its token; some served requests are answered by the handler's own error; a served request is served by the handler of its own operation; per run, route lookups that found a route <= requests that have one, request validations <= requests bound through BindAndValidate, and no request reaches a Builder middleware or a generated handler without its matched route; " +
+		Rule: "(a) runs of N=8..64 goroutines sending requests to one server (13 operations: path/query/header/array/body parameters, two path parameters in one segment, typed array parameters with declared defaults that most requests leave out, OR and AND security requirements, an operation whose two alternatives have different scopes and can be satisfied at once, two produces, a Responder result, a 204 and a HEAD operation, consumers that stamp their media type; handlers that normalise the slices they are handed in place), each request carrying a unique token in every position; the same registrations are served by two handler instances, middleware.NewContext over the untyped API and middleware.NewRoutableContext over a RoutableAPI whose operation handlers run RouteInfo, Authorize, BindValidRequest, handler, Respond (APIHandler), each request going to one of them; a quarter of the requests are driven accessor by accessor (RouteInfo, Authorize, BindAndValidate on the first — or, for half of them, BindValidRequest with a binder of its own, then Respond, on the second) and read back the stored principal, scopes and matched route; a fifth are served inside a wrapping middleware that asks RouteInfo first, serves the request value it was returned and reads the route again (and asks again) when the handler has returned, or (half of them) authenticates in front of the handler: it takes the route from RouteInfo or from a LookupRoute of its own, asks Authorize and lets the handler serve the request value Authorize returned, two thirds of the X-Key credentials being one-time keys (accepted by their authenticator once: a request admitted in front must not be answered 401 inside); about a quarter of the requests must be refused (unacceptable Accept, non-admitted or malformed Content-Type, missing/ill-typed required query parameter, rejected credential, no credentials, a principal the authorizer refuses, unknown path, undeclared method), each judged by its expected status and by the operation handler not having run for its token; some served requests are answered by the handler's own error; a served request is served by the handler of its own operation; per run, route lookups that found a route <= requests that have one, request validations <= requests bound through BindAndValidate, and no request reaches a Builder middleware or a generated handler without its matched route; " +
 			"GOMAXPROCS in {1,2,4,16}; a PRNG-driven hook callback yields/sleeps at the inter-stage suspension points and records the hook trace; built with -race. " +
-			"(b) random sequences (<=15, with repetition) over RouteInfo/ContentType/ResponseFormat/Authorize/BindAndValidate/ResetAuth/Respond (and BindValidRequest into a parameter struct for body-less requests) on one request (its own token per sequence; key / bearer / both / bad / nil-principal / refused-by-the-authorizer / no credentials; binding outcomes valid, 415, and invalid for validation reasons only), on either Context, threading the returned request, judged by a 5-flag reference state machine over authenticator/consumer/lookup/validation/body-read counters; the first answer of each stage is judged against the request's own values (ContentType: media type and charset, both compared on every later ask; RouteInfo: pattern, operation, parameters, compared on every later ask), the Content-Type header is rewritten after its first parse and the first BindAndValidate after it must judge the body by the parsed value, Respond after a successful negotiation must answer in that format whatever list it is handed, a third of the sequences end with the whole handler serving the threaded request value (no lookup, no authenticator call after a principal, no second consumer run or validation after a binding; the route reads the same afterwards) followed by the askers again, and a third of the sequences are preceded by the same request asked once and another client's request to the same operation (the grant must not change). " +
+			"(b) random sequences (<=18, with repetition) over RouteInfo/ContentType/ResponseFormat/Authorize/BindAndValidate/ResetAuth/Respond (and BindValidRequest into a parameter struct for body-less requests) on one request (its own token per sequence; key / one-time key / bearer / both / bad / nil-principal / refused-by-the-authorizer / no credentials; binding outcomes valid, 415, and invalid for validation reasons only), on either Context, threading the returned request, judged by a 5-flag reference state machine over authenticator/consumer/lookup/validation/body-read counters; the first answer of each stage is judged against the request's own values (ContentType: media type and charset, both compared on every later ask; RouteInfo: pattern, operation, parameters, compared on every later ask), the Content-Type header is rewritten after its first parse and the first BindAndValidate after it must judge the body by the parsed value, Respond after a successful negotiation must answer in that format whatever list it is handed, a third of the sequences end with the whole handler serving the threaded request value (no lookup, no authenticator call after a principal, no second consumer run or validation after a binding; the route reads the same afterwards) followed by the askers again, the MatchedRoute value handed to Authorize/BindAndValidate/BindValidRequest/Respond next to the threaded request value is, for a quarter of these calls, another one of the same request than the earlier calls were handed (a fresh LookupRoute, MatchedRouteFrom or RouteInfo on the threaded request value), a quarter of the sequences never ask RouteInfo first (LookupRoute instead), an eighth are an authentication middleware in front of the handler (route by either way, Authorize, then the whole handler serves the returned request value: no authenticator call, no 401 for a one-time key), and a third of the sequences are preceded by the same request asked once and another client's request to the same operation (the grant must not change). " +
 			"non-trivial = (a) a run in which >= 2 requests were in flight at once (measured), distinct by hook-trace hash; (b) a sequence with >= 1 repeated accessor, distinct by (request shape, sequence); a worker in which fewer than half of the concurrent runs overlapped counts none of its sequences",
 		Assumptions: []string{
 			"isolation is judged by token equality on everything observable: MatchedRoute params seen by a Builder wrapper, the principal shown to the authorizer, bound values, selected producer/content type echoed in the response",
@@ -159,6 +159,10 @@ type server struct {
 
 	// tokens of the requests whose operation handler ran -> the operation whose handler it was
 	ran sync.Map
+
+	// one-time keys (suffix ~once: a nonce, a one-time password) that have been presented to their authenticator:
+	// each is accepted the first time it is consulted about and rejected ever after
+	usedOnce sync.Map
 }
 
 // noteRan records, from the parameters an operation handler was given, whose request it is serving.
@@ -264,6 +268,12 @@ func buildServer() (*server, error) {
 		}
 		if strings.HasSuffix(tok, "~zero") {
 			return "", nil // a principal that happens to be the zero value of its type is still a principal
+		}
+		if strings.HasSuffix(tok, "~once") {
+			// accepted once: an authenticator consulted again about a request it has admitted refuses it
+			if _, used := s.usedOnce.LoadOrStore(tok, true); used {
+				return nil, oerrors.New(401, "one-time key %s already used", tok)
+			}
 		}
 		return "P:" + tok, nil
 	}))
@@ -477,6 +487,12 @@ type reqSpec struct {
 	structTarget bool
 	// fail: the operation handler answers this request with an error of its own (418)
 	fail bool
+	// once: the X-Key credential of this request (if it has one that is to be accepted) is a one-time key
+	once bool
+	// front: (wrapped) the wrapping middleware authenticates: it gets the route (frontLookup: by LookupRoute, a
+	// MatchedRoute value of its own; otherwise from RouteInfo), asks Authorize, and lets the handler serve the
+	// request value Authorize returned
+	front, frontLookup bool
 }
 
 // refusalStatus: what a refused request of each class is answered with. A malformed Content-Type is refused
@@ -500,6 +516,9 @@ func mkRequest(r *rand.Rand, token string) *reqSpec {
 	acc := []string{"application/json", "text/plain"}[r.Intn(2)]
 	rs := &reqSpec{op: op, token: token, accept: acc, expect: map[string]string{}}
 	v := func(s string) string { return token + "~" + s }
+	// (decided by the token, not by the PRNG: the draws of a run configuration stay what they were)
+	th := mon.Hash64("front|" + token)
+	rs.once = th%3 != 0
 	// about a quarter of the requests are refusals of one class each, interleaved with served requests to
 	// the same routes
 	if r.Intn(4) == 0 {
@@ -525,6 +544,9 @@ func mkRequest(r *rand.Rand, token string) *reqSpec {
 			return token + "~" + s + "~bad"
 		case "deny":
 			return token + "~" + s + "~deny"
+		}
+		if rs.once && s == "k" {
+			return token + "~" + s + "~once"
 		}
 		return token + "~" + s
 	}
@@ -707,6 +729,8 @@ func mkRequest(r *rand.Rand, token string) *reqSpec {
 	rs.generated = r.Intn(2) == 0
 	rs.routable = r.Intn(2) == 0
 	rs.wrapped = !rs.direct && r.Intn(4) == 0
+	rs.front = rs.wrapped && (th>>8)%2 == 0
+	rs.frontLookup = (th>>16)%3 != 0
 	rs.structTarget = structTargetsUnderConcurrency && r.Intn(2) == 0
 	if rs.structTarget {
 		req.Header.Set("X-Bind", "struct")
@@ -998,6 +1022,10 @@ func (s *server) wrappedFlow(rs *reqSpec, rec *httptest.ResponseRecorder) string
 	if rs.routable {
 		ctx, h = s.gctx, s.ghandler
 	}
+	if rs.front && rs.frontLookup {
+		// (it never asks RouteInfo: the request value it hands on carries no route, the router looks it up once)
+		return s.frontFlow(rs, rec, ctx, h, nil, rs.req)
+	}
 	rr, r1, ok := ctx.RouteInfo(rs.req)
 	if rs.refuse == "path" || rs.refuse == "method" {
 		if ok || rr != nil {
@@ -1011,6 +1039,9 @@ func (s *server) wrappedFlow(rs *reqSpec, rec *httptest.ResponseRecorder) string
 	}
 	if msg := judgeRoute(rs, rr); msg != "" {
 		return msg
+	}
+	if rs.front {
+		return s.frontFlow(rs, rec, ctx, h, rr, r1)
 	}
 	before := routeSnap(rr)
 	h.ServeHTTP(rec, r1)
@@ -1026,6 +1057,42 @@ func (s *server) wrappedFlow(rs *reqSpec, rec *httptest.ResponseRecorder) string
 	}
 	if again := routeSnap(rr2); again != before {
 		return keptRoute + fmt.Sprintf("RouteInfo asked again after the handler returned answers {%s}, first {%s}", again, before)
+	}
+	return ""
+}
+
+// frontFlow is an authentication middleware in front of the whole handler: it asks Authorize with the route it
+// got (rr/r1: from RouteInfo; frontLookup: it looks the route up itself and holds the request value as it came)
+// and lets the handler serve the request value Authorize returned. The handler's own security stage is a later
+// asker holding that request value: a request admitted in front (its key may be accepted once only) is not
+// turned away inside.
+func (s *server) frontFlow(rs *reqSpec, rec *httptest.ResponseRecorder, ctx *middleware.Context, h http.Handler, rr *middleware.MatchedRoute, r1 *http.Request) string {
+	cur := r1
+	if rs.frontLookup {
+		own, ok := ctx.LookupRoute(cur)
+		if rs.refuse == "path" || rs.refuse == "method" {
+			if ok || own != nil {
+				return fmt.Sprintf("LookupRoute found a route for %s %s, declared for nothing", cur.Method, cur.URL.Path)
+			}
+			h.ServeHTTP(rec, cur)
+			return ""
+		}
+		if !ok || own == nil {
+			return "LookupRoute found no route"
+		}
+		if msg := judgeRoute(rs, own); msg != "" {
+			return "LookupRoute: " + msg
+		}
+		rr = own
+	}
+	cur.Header.Set("X-Asked", "1") // (the route the handler finds may have been written to by this asker)
+	p, r2, err := ctx.Authorize(cur, rr)
+	if err == nil && r2 != nil {
+		cur = r2
+	}
+	h.ServeHTTP(rec, cur)
+	if err == nil && p != nil && rec.Code == http.StatusUnauthorized {
+		return sigMark("authenticated-request-answered-401/front-middleware-then-handler") + fmt.Sprintf("Authorize in front of the handler admitted the request (principal %v); the handler, serving the request value Authorize returned, answered 401 %.100q", p, rec.Body.String())
 	}
 	return ""
 }
@@ -1179,6 +1246,9 @@ func runConcurrentOnce(m *mon.M, cfg *RunCfg, salt int64) (overlap bool) {
 				if rs.refuse == "" && (rs.op == "delN" || rs.op == "headH") {
 					nByClass["no-body-answer"]++
 				}
+				if rs.wrapped && rs.front && !rs.direct {
+					nByClass["authenticated-in-front-of-the-handler"]++
+				}
 				if msg != "" {
 					flow := "served"
 					switch {
@@ -1257,7 +1327,7 @@ func runConcurrentOnce(m *mon.M, cfg *RunCfg, salt int64) (overlap bool) {
 	for class, n := range nByClass {
 		switch class {
 		case "":
-		case "handler-error", "no-body-answer":
+		case "handler-error", "no-body-answer", "authenticated-in-front-of-the-handler":
 			m.Note("concurrent_"+class, n)
 		default:
 			m.Note("concurrent_refusals_"+class, n)
@@ -1303,6 +1373,10 @@ type SeqCase struct {
 	Accept string   `json:"accept"` // Accept header
 	Body   bool     `json:"body"`
 	Steps  []string `json:"steps"` // R C F A B X(resetAuth) P(Respond) G(BindValidRequest into a struct) S(serve through the handler)
+	// and the steps that only change which MatchedRoute VALUE the later A / B / G / P hand in, next to the threaded
+	// request value: L (a fresh one from LookupRoute on the threaded request; as the first step: the asker never
+	// asked RouteInfo, as an authentication middleware in front of the handler), M (MatchedRouteFrom on the
+	// threaded request). Cred "once": a key its authenticator accepts once only.
 	// Escaped: the request path carries percent-escapes
 	Escaped bool `json:"escapedPath,omitempty"`
 	// Token: the client's token, carried by every value of the request ("" = "seq")
@@ -1408,6 +1482,10 @@ func seqRequest(sc *SeqCase, token, cred string, withBody bool) (*http.Request, 
 		// a principal the application's authorizer refuses
 		req.Header.Set("X-Key", v("k")+"~deny")
 		cands = append(cands, "P:"+v("k")+"~deny")
+	case "once":
+		// a key its authenticator accepts the first time it is consulted about it, and never again
+		req.Header.Set("X-Key", v("k")+"~once")
+		cands = append(cands, "P:"+v("k")+"~once")
 	case "bearer":
 		req.Header.Set("Authorization", "Bearer "+v("b"))
 		cands = append(cands, "P:"+v("b"))
@@ -1498,7 +1576,7 @@ func runSequence(m *mon.M, s *server, sc *SeqCase, cfg *RunCfg) {
 	// operation: the sequence below must be granted the same, whatever was served in between
 	var probe authOutcome
 	probed := false
-	if sc.Before != "" {
+	if sc.Before != "" && sc.Cred != "once" { // (asking a one-time key's request beforehand would spend the key)
 		pr, _, _ := seqRequest(sc, token, sc.Cred, false)
 		probe, probed = authorizeOnce(ctx, pr)
 		other, _, _ := seqRequest(sc, "other", sc.Before, false)
@@ -1519,7 +1597,9 @@ func runSequence(m *mon.M, s *server, sc *SeqCase, cfg *RunCfg) {
 	atomic.StoreInt64(&s.consumed, 0)
 
 	cur := req
-	var route *middleware.MatchedRoute
+	// route: the MatchedRoute value the asker hands in next to the request value (the one RouteInfo answered, or
+	// another one of the same request: L, M); infoRoute: the one the first RouteInfo answered, kept with the request
+	var route, infoRoute *middleware.MatchedRoute
 	// reference flags
 	var routeMemo, ctMemo, fmtMemo, authMemo, bindMemo bool
 	var memoCT, memoCS, memoFmt string
@@ -1531,6 +1611,10 @@ func runSequence(m *mon.M, s *server, sc *SeqCase, cfg *RunCfg) {
 	// what the matched route read when it was first answered; served: the handler has served the request value
 	var routeFirst string
 	served := false
+	// freshRoute: some step handed in a MatchedRoute value obtained by a lookup of the asker's own
+	freshRoute := false
+	// frontFlow: the handler served a request value that carried a principal and no route (authenticated in front of it)
+	frontFlow := false
 	for i, st := range sc.Steps {
 		before := struct{ l, a, c, v int64 }{atomic.LoadInt64(&lookups), atomic.LoadInt64(&s.authCalls), atomic.LoadInt64(&s.consumed), atomic.LoadInt64(&validations)}
 		var stepErr interface{}
@@ -1546,7 +1630,7 @@ func runSequence(m *mon.M, s *server, sc *SeqCase, cfg *RunCfg) {
 						if atomic.LoadInt64(&lookups) != before.l {
 							fail("route-recomputed", fmt.Sprintf("step %d RouteInfo looked the route up again", i))
 						}
-						if rr != route {
+						if rr != infoRoute {
 							fail("route-memo-differs", fmt.Sprintf("step %d RouteInfo returned a different MatchedRoute", i))
 						} else if now := routeSnap(rr); now != routeFirst {
 							// what a later asker is handed is the route of this request, as it was found
@@ -1565,10 +1649,50 @@ func runSequence(m *mon.M, s *server, sc *SeqCase, cfg *RunCfg) {
 						}
 					}
 					route = rr
+					if !routeMemo {
+						infoRoute = rr
+					}
 					routeMemo = true
 					if r2 != nil {
 						cur = r2
 					}
+				}
+			})
+		case "L":
+			// another MatchedRoute value of the same request: an asker that looks the route up itself (LookupRoute
+			// is no memoising accessor: it always looks up, and stores nothing) and hands that value in from now on.
+			// What the request value carries is untouched: every stage that has a result on it stays a memo hit.
+			stepErr, _ = mon.Catch(func() {
+				rr, ok := ctx.LookupRoute(cur)
+				if !ok || rr == nil {
+					if routeMemo {
+						fail("lookup-finds-no-route/request-that-carries-one", fmt.Sprintf("step %d LookupRoute finds no route for the request RouteInfo found one for", i))
+					}
+					return
+				}
+				if rr.Operation == nil || rr.Operation.ID != sc.Op {
+					fail("route-of-another-request/lookup", fmt.Sprintf("step %d LookupRoute matched %q", i, rr.PathPattern))
+				}
+				for _, p := range rr.Params {
+					if !strings.HasPrefix(p.Value, token+"~") {
+						fail("route-of-another-request/lookup", fmt.Sprintf("step %d looked-up route param %s=%q in the request of token %q", i, p.Name, p.Value, token))
+					}
+				}
+				if now := routeSnap(rr); routeMemo && now != routeFirst {
+					// both are derived from this request alone
+					fail("lookup-differs-from-route-info", fmt.Sprintf("step %d LookupRoute answers {%s}, RouteInfo answered {%s} for the same request", i, now, routeFirst))
+				}
+				route = rr
+				freshRoute = true
+			})
+		case "M":
+			stepErr, _ = mon.Catch(func() {
+				mr := middleware.MatchedRouteFrom(cur)
+				if routeMemo && mr != infoRoute {
+					fail("route-memo-differs/matched-route-from", fmt.Sprintf("step %d MatchedRouteFrom on the threaded request value does not answer the MatchedRoute RouteInfo answered (nil: %v)", i, mr == nil))
+				}
+				if mr != nil {
+					route = mr
 				}
 			})
 		case "C":
@@ -1739,13 +1863,27 @@ func runSequence(m *mon.M, s *server, sc *SeqCase, cfg *RunCfg) {
 			}
 			stepErr, _ = mon.Catch(func() {
 				cur.Header.Set("X-Asked", "1")
-				handler.ServeHTTP(httptest.NewRecorder(), cur)
+				rec := httptest.NewRecorder()
+				handler.ServeHTTP(rec, cur)
 				served = true
-				if atomic.LoadInt64(&lookups) != before.l {
+				if routeMemo && atomic.LoadInt64(&lookups) != before.l {
 					fail("route-recomputed/by-the-handler", fmt.Sprintf("step %d the handler looked the route up again for a request value that carries it", i))
+				}
+				if !routeMemo && atomic.LoadInt64(&lookups)-before.l > 1 {
+					// the request value carried no route: the router looks it up, every later stage of the handler is
+					// a later asker of the request value the router was returned
+					fail("route-recomputed/inside-the-handler", fmt.Sprintf("step %d the handler looked the route up %d times for one request", i, atomic.LoadInt64(&lookups)-before.l))
 				}
 				if authMemo && atomic.LoadInt64(&s.authCalls) != before.a {
 					fail("authenticator-consulted-again/by-the-handler", fmt.Sprintf("step %d the handler consulted an authenticator although the request value carries a principal", i))
+				}
+				if authMemo && !routeMemo {
+					frontFlow = true
+				}
+				if authMemo && rec.Code == http.StatusUnauthorized {
+					// what a second consultation costs: the request Authorize had just admitted is turned away (its
+					// key is accepted once)
+					fail("authenticated-request-answered-401/by-the-handler", fmt.Sprintf("step %d the handler answered 401 %.100q to the request value Authorize returned with principal %v", i, rec.Body.String(), memoPrincipal))
 				}
 				if bindMemo && !sc.Routable {
 					if atomic.LoadInt64(&s.consumed) != before.c {
@@ -1755,7 +1893,7 @@ func runSequence(m *mon.M, s *server, sc *SeqCase, cfg *RunCfg) {
 						fail("binding-recomputed/by-the-handler", fmt.Sprintf("step %d the handler validated the request again", i))
 					}
 				}
-				if now := routeSnap(route); now != routeFirst {
+				if now := routeSnap(infoRoute); infoRoute != nil && now != routeFirst {
 					fail("matched-route-not-kept/after-the-handler", fmt.Sprintf("step %d after the handler returned, the route the first RouteInfo answered reads {%s}; it read {%s}", i, now, routeFirst))
 				}
 			})
@@ -1849,6 +1987,18 @@ func runSequence(m *mon.M, s *server, sc *SeqCase, cfg *RunCfg) {
 	if served {
 		m.Class("sequence-served-by-the-handler")
 	}
+	if freshRoute {
+		m.Class("sequence-with-a-route-value-of-the-asker's-own-lookup")
+	}
+	if len(sc.Steps) > 0 && sc.Steps[0] == "L" {
+		m.Class("sequence-of-an-asker-that-never-asked-RouteInfo-first")
+	}
+	if frontFlow {
+		m.Class("sequence-authenticated-in-front-of-the-handler")
+		if sc.Cred == "once" {
+			m.Class("sequence-authenticated-in-front-of-the-handler/one-time-key")
+		}
+	}
 	if sc.Before != "" {
 		m.Class("sequence-after-other-client")
 	}
@@ -1860,7 +2010,7 @@ func runSequence(m *mon.M, s *server, sc *SeqCase, cfg *RunCfg) {
 func genSeq(r *rand.Rand) *SeqCase {
 	sc := &SeqCase{
 		Op:   []string{"getA", "postA", "getB", "postA", "getS", "postV", "getS", "postV"}[r.Intn(8)],
-		Cred: []string{"good", "good", "bad", "none", "zero", "bearer", "both", "deny"}[r.Intn(8)],
+		Cred: []string{"good", "good", "bad", "none", "zero", "bearer", "both", "deny", "once", "once"}[r.Intn(10)],
 		CT: []string{"application/json", "application/json; charset=utf-8", "", "text/plain", "bogus/",
 			"text/plain;charset=ISO-8859-1", "application/json; charset=utf-8", "Application/JSON; Charset=\"utf-16\"; q=1"}[r.Intn(8)],
 		Accept: []string{"application/json", "text/plain", "", "image/png", "text/plain;q=0.5, application/json;q=0.4"}[r.Intn(5)],
@@ -1879,19 +2029,57 @@ func genSeq(r *rand.Rand) *SeqCase {
 			sc.Cred, sc.Before = "both", []string{"bearer", "good"}[r.Intn(2)]
 		}
 	}
+	if sc.Cred == "once" {
+		sc.Before = "" // asking the request beforehand would spend its key
+	}
 	sc.RewriteCT = r.Intn(2) == 0
 	sc.Routable = r.Intn(2) == 0
+	if r.Intn(8) == 0 {
+		// an authentication middleware in front of the whole handler: it gets the route (by a lookup of its own,
+		// from RouteInfo, or from the request value RouteInfo returned), asks Authorize, and lets the handler serve
+		// the request value Authorize returned; some ask other stages as well, before or after
+		if r.Intn(3) != 0 && sc.Op != "postV" {
+			sc.Cred = []string{"once", "once", "good", "both"}[r.Intn(4)]
+			sc.Before = ""
+		}
+		sc.Steps = append(sc.Steps, []string{"L", "L", "R", "R L", "R M", "L R"}[r.Intn(6)])
+		sc.Steps = strings.Fields(strings.Join(sc.Steps, " "))
+		for k := r.Intn(3); k > 0; k-- {
+			sc.Steps = append(sc.Steps, string("CFA"[r.Intn(3)]))
+		}
+		sc.Steps = append(sc.Steps, "A")
+		if r.Intn(3) == 0 {
+			sc.Steps = append(sc.Steps, []string{"L", "A", "F", "B"}[r.Intn(4)])
+		}
+		sc.Steps = append(sc.Steps, "S")
+		if r.Intn(2) == 0 {
+			sc.Steps = append(sc.Steps, "R", "P")
+		}
+		return sc
+	}
 	n := 2 + r.Intn(11)
 	steps := "RCFABXP"
 	if sc.Routable && !sc.Body && r.Intn(2) == 0 {
 		sc.StructBind = true
 		steps += "G"
 	}
-	sc.Steps = append(sc.Steps, "R")
-	for len(sc.Steps) < n {
+	// a quarter of the askers never ask RouteInfo first: they look the route up themselves
+	if r.Intn(4) == 0 {
+		sc.Steps = append(sc.Steps, "L")
+	} else {
+		sc.Steps = append(sc.Steps, "R")
+	}
+	extra := 0
+	for len(sc.Steps) < n+extra {
 		c := steps[r.Intn(len(steps))]
 		if c == 'X' && r.Intn(2) == 0 {
 			c = 'A'
+		}
+		if strings.IndexByte("ABPG", c) >= 0 && extra < 3 && r.Intn(4) == 0 {
+			// the asker hands in another MatchedRoute value of the same request than the one the earlier calls were
+			// handed (and wrote to): a fresh lookup, or what the threaded request value carries
+			sc.Steps = append(sc.Steps, []string{"L", "L", "M", "R"}[r.Intn(4)])
+			extra++
 		}
 		sc.Steps = append(sc.Steps, string(c))
 	}
